@@ -675,29 +675,24 @@ func main() {
 			eng := engName[ev.Engine&1]
 			what := fmt.Sprintf("%s during %s (%s, %s) of %s: %s", ev.Kind, phaseName[ev.Phase], eng, fsn, in.Tag, fw.FirstLines(ev.Stderr, 3))
 			v := viol{Tag: in.Tag, Hex: hex.EncodeToString(in.B), FS: fsn, What: what}
-			oom := strings.Contains(ev.Stderr, "out of memory") || strings.Contains(ev.Stderr, "cannot allocate")
+			v.Sig = sigOfEvent(ev)
 			switch {
-			case ev.Kind == "exec-hang" || (ev.Kind == "silent" && ev.Phase == phaseExec):
+			case v.Sig == "":
 				tot.Timing["guest-did-not-terminate:killed-by-watchdog"]++
 				return
-			case ev.Kind == "compile-hang" || ev.Kind == "silent":
+			case strings.HasPrefix(v.Sig, "compile-hang:"):
 				tot.Outcomes["compile:hang"]++
-				v.Sig = "compile-hang:" + eng
-			case oom && ev.Phase != phaseExec:
+			case strings.HasPrefix(v.Sig, "alloc:"):
 				tot.Outcomes["compile:process-death:out-of-memory"]++
-				v.Sig = "alloc:" + siteFromTrace(ev.Stderr)
 				if ch.Cat == "field" && in.Fixup {
 					crashKeys[crashKey(ch.Seed, in.Field, in.Val)] = true
 				}
-			case ev.Phase != phaseExec:
+			case strings.HasPrefix(v.Sig, "compile-crash:"):
 				tot.Outcomes["compile:process-death:fault"]++
-				v.Sig = "compile-crash:" + eng + ":" + siteFromTrace(ev.Stderr)
-			case oom:
+			case strings.HasPrefix(v.Sig, "exec-alloc:"):
 				tot.Outcomes["exec:process-death:out-of-memory"]++
-				v.Sig = "exec-alloc:" + eng + ":" + siteFromTrace(ev.Stderr)
 			default:
 				tot.Outcomes["exec:process-death:fault"]++
-				v.Sig = "exec-fault:" + eng + ":" + siteFromTrace(ev.Stderr)
 			}
 			tot.events[v.Sig]++
 			viols = append(viols, pv{viol: v, crash: true})
@@ -737,6 +732,21 @@ func main() {
 	sigCount := map[string]int64{}
 	for _, v := range viols {
 		sigCount[v.Sig]++
+	}
+	// DESIGN 1.6: a violation that is not a known finding is re-run in a fresh process before it is
+	// reported; a failure that does not reproduce with the same signature is a harness error.
+	known := loadKnown()
+	confirmed := map[string]bool{}
+	for _, v := range viols {
+		if known(v.Sig) || confirmed[v.Sig] || len(confirmed) >= 12 {
+			continue
+		}
+		confirmed[v.Sig] = true
+		if !reproduces(dir, v.viol) {
+			fw.Fatalf("violation %q on input %s (%s) did not reproduce in a fresh process", v.Sig, v.Tag, v.Hex)
+		}
+	}
+	for _, v := range viols {
 		run.Violation(v.Sig, v.What+" [input "+v.Tag+"]", map[string]any{"hex": v.Hex, "fs": v.FS, "tag": v.Tag})
 	}
 
@@ -786,6 +796,77 @@ func main() {
 		"stub imports are wasm modules exporting zero-returning functions and tables/memories/globals of the declared type; mutable numeric globals are set to 2 before the importer is instantiated; declared tables above 2^20 entries are not instantiated",
 		"NaN bit patterns are excluded from the engine comparison (results, globals and memory words that are NaNs on both sides)",
 	})
+}
+
+// loadKnown returns the matcher fw applies to open findings (exact signature or '*' prefix pattern).
+func loadKnown() func(sig string) bool {
+	var fs []fw.Finding
+	for _, p := range []string{fw.Root + "/known_findings.json", fw.Root + "/checks/c03/findings.json"} {
+		b, err := os.ReadFile(p)
+		if err != nil {
+			continue
+		}
+		var l []fw.Finding
+		json.Unmarshal(b, &l)
+		fs = append(fs, l...)
+	}
+	return func(sig string) bool {
+		for _, f := range fs {
+			if f.Property != "C03" || f.Status != "open" {
+				continue
+			}
+			if f.Signature == sig || (strings.HasSuffix(f.Signature, "*") && strings.HasPrefix(sig, strings.TrimSuffix(f.Signature, "*"))) {
+				return true
+			}
+		}
+		return false
+	}
+}
+
+// reproduces re-runs one input in a fresh supervised child and reports whether the same signature
+// shows up again (as a reported violation or as a process death).
+func reproduces(dir string, v viol) bool {
+	hf := dir + "/confirm.json"
+	js, _ := json.Marshal([]map[string]string{{"hex": v.Hex, "tag": v.Tag}})
+	os.WriteFile(hf, js, 0o600)
+	sub := dir + "/confirm"
+	os.MkdirAll(sub, 0o700)
+	seen := false
+	supervise(supOpts{N: 1, Chunks: []chunk{{Cat: "hex"}}, Workers: 1, UlimitVKB: ulimitKB, Env: []string{"VERIF_C03_HEXFILE=" + hf}, Dir: sub},
+		func(ci int, res string) {
+			var r chunkRes
+			json.Unmarshal([]byte(res), &r)
+			for _, x := range r.Viol {
+				if x.Sig == v.Sig {
+					seen = true
+				}
+			}
+		},
+		func(ev event) {
+			if sigOfEvent(ev) == v.Sig {
+				seen = true
+			}
+		})
+	return seen
+}
+
+// sigOfEvent classifies a process death / hang ("" = not a verdict).
+func sigOfEvent(ev event) string {
+	eng := engName[ev.Engine&1]
+	oom := strings.Contains(ev.Stderr, "out of memory") || strings.Contains(ev.Stderr, "cannot allocate")
+	switch {
+	case ev.Kind == "exec-hang" || (ev.Kind == "silent" && ev.Phase == phaseExec):
+		return ""
+	case ev.Kind == "compile-hang" || ev.Kind == "silent":
+		return "compile-hang:" + eng
+	case oom && ev.Phase != phaseExec:
+		return "alloc:" + siteFromTrace(ev.Stderr)
+	case ev.Phase != phaseExec:
+		return "compile-crash:" + eng + ":" + siteFromTrace(ev.Stderr)
+	case oom:
+		return "exec-alloc:" + eng + ":" + siteFromTrace(ev.Stderr)
+	}
+	return "exec-fault:" + eng + ":" + siteFromTrace(ev.Stderr)
 }
 
 func sumEvents(m map[string]int64) int64 {
